@@ -71,7 +71,7 @@ STEP_REQ = (
         "0 <= clock_struct.time_step_counter and clock_struct.time_step_counter < n_steps",
         "-1 <= %s and %s < n_seasons" % (SC, SC), "clock_struct.evap_time_steps >= 1",
         # weather of the day (prepare_weather clips ET0 at 0.1)
-        "length(weather_step) == 5 or True", "weather_step[2] >= 0", "weather_step[3] > 0",
+        "length(weather_step) == 5 or True", "weather_step[2] >= 0", "weather_step[3] >= 0",
         # soil parameters (valid_soil)
         "{s}.adj_cn == 0 or {s}.adj_cn == 1".format(s=SOILO), "0 < {s}.z_cn and {s}.z_cn <= {p}.dzsum[n-1]".format(s=SOILO, p=P),
         "{s}.z_top >= 0.01".format(s=SOILO),
@@ -127,6 +127,9 @@ contract(TS + "run_single_timestep.py", "solution_single_time_step",
               % (_S("NewCond.th"), _S("init_cond.th"), SC, P)),
              ("C03.step_water_inv", W.WATER_INV("NewCond.th", P)),
              ("C03.step_ponding_nonneg", "NewCond.surface_storage >= 0"),
+             # the ponding limit is that of the field management in force on this day (the crop's in season, the fallow one otherwise)
+             ("C03.step_ponding_le_bund_in_force", "implies(NewCond.growing_season, NewCond.surface_storage <= ite(param_struct.FieldMngt.bunds and param_struct.FieldMngt.z_bund > 0.001, param_struct.FieldMngt.z_bund, 0)) and "
+                                                   "implies(not NewCond.growing_season, NewCond.surface_storage <= ite(param_struct.FallowFieldMngt.bunds and param_struct.FallowFieldMngt.z_bund > 0.001, param_struct.FallowFieldMngt.z_bund, 0))"),
              ("C03.step_root_zone_storage_nonneg", "written(outputs.water_flux, 0)[1][3] >= 0"),
              ("C03.step_fcadj_range", "forall(j, 0, n, param_struct.Soil.Profile.th_fc[j] <= NewCond.th_fc_Adj[j] and NewCond.th_fc_Adj[j] <= param_struct.Soil.Profile.th_s[j])"),
              ("C07.step_row_index", "written(outputs.water_flux, 0)[0] == clock_struct.time_step_counter and written(outputs.water_flux, 0)[1][0] == clock_struct.time_step_counter"),
@@ -151,7 +154,7 @@ contract(TS + "run_single_timestep.py", "solution_single_time_step",
                                  "NewCond.FreshYield == NewCond.DryYield / (param_struct.Seasonal_Crop_List[clock_struct.season_counter].YldWC / 100)) and NewCond.YieldPot == NewCond.biomass_ns / 100 * NewCond.harvest_index"),
              ("C06.step_yield_row", "written(outputs.crop_growth, 0)[1][8] == NewCond.biomass and written(outputs.crop_growth, 0)[1][9] == NewCond.biomass_ns and written(outputs.crop_growth, 0)[1][10] == NewCond.harvest_index and written(outputs.crop_growth, 0)[1][11] == NewCond.harvest_index_adj and "
                                     "written(outputs.crop_growth, 0)[1][12] == NewCond.DryYield and written(outputs.crop_growth, 0)[1][13] == NewCond.FreshYield and written(outputs.crop_growth, 0)[1][14] == NewCond.YieldPot"),
-             ("C06.step_biomass_gain", "implies(NewCond.growing_season, NewCond.biomass - old(init_cond.biomass) <= param_struct.Seasonal_Crop_List[clock_struct.season_counter].WP * param_struct.Seasonal_Crop_List[clock_struct.season_counter].fCO2 * (written(outputs.water_flux, 0)[1][14] / weather_step[3]) and "
+             ("C06.step_biomass_gain", "implies(NewCond.growing_season and weather_step[3] > 0, NewCond.biomass - old(init_cond.biomass) <= param_struct.Seasonal_Crop_List[clock_struct.season_counter].WP * param_struct.Seasonal_Crop_List[clock_struct.season_counter].fCO2 * (written(outputs.water_flux, 0)[1][14] / weather_step[3]) and "
                                        "NewCond.biomass - old(init_cond.biomass) >= param_struct.Seasonal_Crop_List[clock_struct.season_counter].WP * (param_struct.Seasonal_Crop_List[clock_struct.season_counter].WPy / 100) * param_struct.Seasonal_Crop_List[clock_struct.season_counter].fCO2 * (written(outputs.water_flux, 0)[1][14] / weather_step[3]))"),
              ("C06.step_seasonal_irrigation", "implies(NewCond.growing_season, ite(ite(clock_struct.season_counter >= 0, param_struct.IrrMngt.irrigation_method, param_struct.FallowIrrMngt.irrigation_method) == 4, NewCond.irr_net_cum == old(init_cond.irr_net_cum) + written(outputs.water_flux, 0)[1][6], NewCond.irr_cum == old(init_cond.irr_cum) + written(outputs.water_flux, 0)[1][6]))"),
              ("C13.step_irrigation_limits", "implies(NewCond.growing_season and ite(clock_struct.season_counter >= 0, param_struct.IrrMngt.irrigation_method, param_struct.FallowIrrMngt.irrigation_method) != 4, written(outputs.water_flux, 0)[1][6] <= param_struct.IrrMngt.MaxIrr and NewCond.irr_cum <= max(param_struct.IrrMngt.MaxIrrSeason, old(init_cond.irr_cum)))"),
@@ -180,8 +183,16 @@ contract(TS + "run_single_timestep.py", "solution_single_time_step",
                                         "((param_struct.Seasonal_Crop_List[clock_struct.season_counter].CalendarType == 1 and NewCond.dap >= param_struct.Seasonal_Crop_List[clock_struct.season_counter].Maturity) or (param_struct.Seasonal_Crop_List[clock_struct.season_counter].CalendarType == 2 and NewCond.gdd_cum >= param_struct.Seasonal_Crop_List[clock_struct.season_counter].Maturity)))"),
          ],
          assigns=["init_cond.**", "outputs.**", "param_struct.Fallow_Crop.Aer", "param_struct.Fallow_Crop.Zmin"],
-         options=dict(merge_limit=None, table_cols=dict(water_flux=16, crop_growth=15, water_storage=3)),
-         props=("C01", "C02", "C03", "C04", "C05", "C06", "C07", "C12", "C13", "C19", "C16"))
+         options=dict(merge_limit=None, table_cols=dict(water_flux=16, crop_growth=15, water_storage=3),
+                      # calculation scheme of one day (reference manual ch. 3 / the numbered comments of the function): each process sees the
+                      # state left by the processes before it. Checked on the call sites of the current source (kind call_order).
+                      call_precedence=[("check_groundwater_table", "root_development"), ("root_development", "pre_irrigation"), ("pre_irrigation", "drainage"),
+                                       ("drainage", "rainfall_partition"), ("rainfall_partition", "irrigation"), ("irrigation", "infiltration"),
+                                       ("infiltration", "capillary_rise"), ("capillary_rise", "germination"), ("germination", "growth_stage"),
+                                       ("growth_stage", "canopy_cover"), ("canopy_cover", "soil_evaporation"), ("soil_evaporation", "transpiration"),
+                                       ("transpiration", "groundwater_inflow"), ("groundwater_inflow", "biomass_accumulation"),
+                                       ("biomass_accumulation", "harvest_index")]),
+         props=("C01", "C02", "C03", "C04", "C05", "C06", "C07", "C08", "C12", "C13", "C19", "C16"))
 
 # ----------------------------------------------------------------------------- check_model_is_finished
 contract(TS + "check_if_model_is_finished.py", "check_model_is_finished",
@@ -327,6 +338,7 @@ contract(CORE, "AquaCropModel._perform_timestep#body",
          returns=[("clk", ("Expr", "self._clock_struct")), ("cond", ("Expr", "self._init_cond")), ("ps", ("Expr", "self._param_struct")), ("outs", ("Expr", "self._outputs"))],
          ensures=[
              ("C14.timestep_reads_only_todays_weather", "only_element_read(self._weather, old(%s.time_step_counter))" % _SC),
+             ("C15.timestep_uses_the_row_of_the_step_counter", "only_element_read(self._weather, old(%s.time_step_counter))" % _SC),
              ("C07.timestep_finished_means", "implies({c}.model_is_finished, old({c}.step_end_time) >= {c}.simulation_end_date or "
                                              "(self._init_cond.harvest_flag and old({c}.season_counter) == n_seasons - 1))".format(c=_SC)),
              ("C07.timestep_unfinished_means", "implies(not {c}.model_is_finished, old({c}.step_end_time) < {c}.simulation_end_date)".format(c=_SC)),
